@@ -48,10 +48,13 @@ KERNEL_MODULES = ['conversion.tof', 'conversion.beamline']
 CASCADE_SPECS = {'wavelength': P(dim='L'), 'time': P(dim='T', positive=False), 'distance': P(dim='L', positive=False)}
 
 
-def is_public(fi) -> bool:
+def is_public(fi, eff=None) -> bool:
     parts = fi.qualname.split('.')
-    if fi.cls is not None and fi.cls.name.startswith('_') and not fi.qualname.endswith('.setter'):
-        pass
+    if fi.cls is not None and fi.cls.name.startswith('_') and eff is not None:
+        # methods of a private class are entry points only through public subclasses (e.g. _CIFBase -> Chunk, Loop);
+        # a private record or helper class without any is internal to the functions that build it
+        if not any(not c.name.startswith('_') for c in eff.subclasses_of(fi.cls)):
+            return False
     name = parts[1] if len(parts) > 1 else parts[0]
     if name.startswith('__') and name.endswith('__'):
         return name not in ('__init__', '__post_init__', '__new__', '__repr__', '__str__', '__eq__', '__hash__')
@@ -84,7 +87,7 @@ def run(tier: str) -> Run:
     r1 = run.rule('R1', 'public functions write to nothing reachable from an argument (frozen list of documented mutators excepted)', 190)
     n_pub = 0
     for fq, fi in sorted(eff.funcs.items()):
-        if not fi.module.startswith(TARGET_PREFIXES) or not is_public(fi):
+        if not fi.module.startswith(TARGET_PREFIXES) or not is_public(fi, eff):
             continue
         n_pub += 1
         s = eff.summaries[fq]
@@ -126,7 +129,7 @@ def run(tier: str) -> Run:
         r2.check(not g, fi.fq, loc(fi), {'returns_container': g, 'elements_from': sorted(t for t in s.ret.elem if t.startswith('g:'))[:3]}, key=fi.fq)
     seen = {repo.func(m, n).fq for m, n in GRAPH_FACTORIES}
     for fq, fi in sorted(eff.funcs.items()):
-        if fq in seen or not fi.module.startswith(TARGET_PREFIXES) or not is_public(fi):
+        if fq in seen or not fi.module.startswith(TARGET_PREFIXES) or not is_public(fi, eff):
             continue
         rs = eff.summaries[fq].ret
         g = sorted(t for t in rs.cont if t.startswith('g:'))
